@@ -192,10 +192,39 @@ def run_boundary(case, ctx):
             members = [[i for i in range(n) if K.route(model.root, ref[i])[0] == l] for l in range(model.L)]
             cands = []
             for _ in range(400):
-                m = int(rng.integers(2, 3 * n))
+                m = int(rng.integers(2, 8 * n))
                 c = rng.multinomial(m, rng.dirichlet(np.ones(model.L) * float(rng.choice([0.3, 1.0, 3.0]))))
                 cands.append(c)
-            scored = sorted(((float(scipy.stats.entropy(model.ref_dist, distn(c))) - crit, tuple(int(v) for v in c)) for c in cands), key=lambda t: abs(t[0]))
+            def marg(c):
+                return float(scipy.stats.entropy(model.ref_dist, distn(np.asarray(c, dtype=float)))) - crit
+
+            scored = sorted(((marg(c), tuple(int(v) for v in c)) for c in cands), key=lambda t: abs(t[0]))
+            # greedy local search from the best candidates on either side: move / add / remove single rows while the margin
+            # keeps its sign and shrinks
+            refined = []
+            for want_above in (True, False):
+                pool = [t for t in scored if (t[0] > 0) == want_above][:3]
+                for m0, c0 in pool:
+                    c = list(c0)
+                    best = m0
+                    for _ in range(900):
+                        c2 = list(c)
+                        mv = int(rng.integers(0, 3))
+                        i1, i2 = int(rng.integers(0, model.L)), int(rng.integers(0, model.L))
+                        if mv == 0 and c2[i1] > 0:
+                            c2[i1] -= 1
+                            c2[i2] += 1
+                        elif mv == 1:
+                            c2[i1] += 1
+                        elif c2[i1] > 0 and sum(c2) > 2:
+                            c2[i1] -= 1
+                        if any(c2[l] and not members[l] for l in range(model.L)):
+                            continue
+                        m2 = marg(c2)
+                        if (m2 > 0) == want_above and abs(m2) < abs(best):
+                            c, best = c2, m2
+                    refined.append((best, tuple(c)))
+            scored = sorted(refined + scored[:4], key=lambda t: abs(t[0]))
             above = [t for t in scored if t[0] > 0][:2]
             below = [t for t in scored if t[0] <= 0][:2]
             for margin, c in above + below:
@@ -220,6 +249,10 @@ def run_boundary(case, ctx):
                 ctx.count("boundary_decisions")
                 if abs(margin) <= 1e-4 * max(crit, 1e-12):
                     ctx.count("boundary_decisions_within_1e-4_of_critical")
+                if 0 < abs(margin) <= 1e-5 * max(crit, 1e-12):
+                    ctx.count("boundary_decisions_within_1e-5_of_critical")
+                if 0 < abs(margin) <= 1e-6 * max(crit, 1e-12):
+                    ctx.count("boundary_decisions_within_1e-6_of_critical")
                 if margin == 0:
                     ctx.count("boundary_exact_ties")
                 if det2.drift_state != exp:
